@@ -131,6 +131,7 @@ type Engine struct {
 	deadlockViolation  string
 	files              map[string]string
 	syncMaps           map[*value]*omap
+	syncPools          map[*value][]value
 }
 
 type Stats struct {
@@ -278,6 +279,7 @@ func (e *Engine) resetPath(prefix []Decision) {
 	e.deadlockViolation = ""
 	e.files = nil
 	e.syncMaps = nil
+	e.syncPools = nil
 	e.MaxForks = 100000
 	// fresh term table per path keeps memory bounded; variable names are
 	// deterministic per path so solver declarations can be reused.
